@@ -6,5 +6,7 @@ CONSTANTS Times <- McTimesS
  MaxBoots = 1
  DupCheck = TRUE
  PayloadIdentity = FALSE
-INVARIANTS AtMostOnce InWindow ForkFree
+ Encs = {"c"}
+ CarrierIdentity = FALSE
+INVARIANTS AtMostOnce InWindow ForkFree CarrierFree
 CHECK_DEADLOCK FALSE
